@@ -24,11 +24,30 @@ def d4_per_datum_chunking_only_under_concat(ctx, repo):
     rule = "C36.D4-per-datum-chunks-only-under-concat"
     f = repo.func(CO, "ConsolidatorBase.chunks")
     sh = repo.func(CO, "ConsolidatorBase.shape")
-    t = A.norm(sh.node)
-    ok = "self.join_method == 'concat'" in t and "self._num_rows * self.datum_shape[0]" in t
+    # premise, decided on the returned expression (temporaries substituted, guard clauses folded) for every case of the two conditions
+    e = q.return_expression(sh.node)
+
+    def leaf(e, env):
+        while isinstance(e, ast.IfExp):
+            t = booleval.ev(e.test, env)
+            if t is None:
+                return None
+            e = e.body if t else e.orelse
+        return e
+    ok = e is not None
+    if ok:
+        for concat in (True, False):
+            for nonscalar in (True, False):
+                env = {"self.join_method == 'concat'": concat, "self.join_method != 'concat'": not concat, "self.join_method == 'stack'": not concat,
+                       "len(self.datum_shape) > 0": nonscalar, "len(self.datum_shape) == 0": not nonscalar, "self.datum_shape": nonscalar, "len(self.datum_shape)": nonscalar}
+                lf = leaf(e, env)
+                txt = A.norm(lf) if lf is not None else ""
+                want = "(self._num_rows * self.datum_shape[0], *self.datum_shape[1:])" if (concat and nonscalar) else "(self._num_rows, *self.datum_shape)"
+                ok = ok and txt == want
     ctx.ob(rule, cname(sh, None, "shape: leading dimension is _num_rows * datum_shape[0] under concat, _num_rows otherwise"), ok,
            "" if ok else "shape changed: the rule's premise no longer holds", where=where(sh, sh.node))
-    sites = [c for c in A.calls_in(f.node) if A.call_name(c) == "list_summands" and A.kw(c, "repeat") is not None and "self._num_rows" in A.norm(A.kw(c, "repeat"))]
+    # the per-datum chunking site: a summand helper called with repeat=<_num_rows> (whatever the helper is called)
+    sites = [c for c in A.calls_in(f.node) if A.kw(c, "repeat") is not None and "self._num_rows" in A.norm(A.kw(c, "repeat"))]
     ctx.ob(rule, cname(f, None, "per-datum chunking site"), len(sites) >= 1, "" if sites else "no per-datum chunking left", where=where(f, f.node))
     pm = A.parents(f.node)
     for c in sites:
@@ -94,32 +113,107 @@ def run(ctx):
     rets = [s for s in A.walk_stmts(f.node.body) if isinstance(s, ast.Return) and isinstance(s.value, ast.Call) and A.call_name(s.value) == "StreamDatum"]
     ctx.require(rets, "anchor vanished: the StreamDatum(...) result of concatenate_stream_datums")
     call = rets[0].value
+    import copy as _copy
+    ret_ids = g.nodes_of(rets[0])
+    params = [a.arg for a in f.node.args.args] + ([f.node.args.vararg.arg] if f.node.args.vararg else [])
+
+    def is_sort(v):
+        """tuple(sorted(<x>, key=lambda d: d['indices']['start'])) / sorted(...) / list(sorted(...))"""
+        while isinstance(v, ast.Call) and A.call_name(v) in ("tuple", "list") and len(v.args) == 1 and not v.keywords:
+            v = v.args[0]
+        if not (isinstance(v, ast.Call) and A.call_name(v) == "sorted" and len(v.args) == 1):
+            return None
+        k = A.kw(v, "key")
+        if A.kw(v, "reverse") is not None or not isinstance(k, ast.Lambda) or len(k.args.args) != 1:
+            return None
+        a = k.args.args[0].arg
+        if A.norm(k.body) != f"{a}['indices']['start']":
+            return None
+        return v.args[0]
+    sort_stmts = [s for s in A.walk_stmts(f.node.body) if isinstance(s, ast.Assign) and len(s.targets) == 1 and isinstance(s.targets[0], ast.Name) and is_sort(s.value) is not None]
+
+    def resolve(nid, e, depth=6):
+        """reaching definitions followed back; a name whose only definition is the sort becomes SORTED, the untouched parameter INPUT"""
+        def at(node_id, e, d):
+            class X(ast.NodeTransformer):
+                def visit_Name(self, n):
+                    if not isinstance(n.ctx, ast.Load) or d <= 0:
+                        return n
+                    defs = q.reaching_defs(g, node_id, n.id)
+                    if len(defs) == 1 and defs[0][0] == "param" and n.id in params:
+                        return ast.Name(id="INPUT", ctx=ast.Load())
+                    if len(defs) != 1 or defs[0][0] != "assign" or defs[0][1] is None or isinstance(defs[0][2].stmt, ast.AugAssign):
+                        return n
+                    st = defs[0][2].stmt
+                    if st in sort_stmts:
+                        src = at(defs[0][2].id, _copy.deepcopy(is_sort(st.value)), d - 1)
+                        return ast.Name(id="SORTED" if A.norm(src) == "INPUT" else "SORTED_OF_SOMETHING_ELSE", ctx=ast.Load())
+                    return at(defs[0][2].id, _copy.deepcopy(defs[0][1]), d - 1)
+            return X().visit(_copy.deepcopy(e))
+        return at(nid, e, depth)
+    rid = ret_ids[0] if ret_ids else None
     sel = {}
     for field in ("indices", "seq_nums"):
         v = A.kw(call, field)
-        if isinstance(v, ast.Call) and A.call_name(v) == "StreamRange":
-            sel[field] = (A.norm(A.kw(v, "start")).replace(f"'{field}'", "'F'"), A.norm(A.kw(v, "stop")).replace(f"'{field}'", "'F'"))
-    ok = len(sel) == 2 and sel["indices"] == sel["seq_nums"] == ("docs[0]['F']['start']", "docs[-1]['F']['stop']")
+        if isinstance(v, ast.Call) and A.call_name(v) == "StreamRange" and rid is not None and A.kw(v, "start") is not None and A.kw(v, "stop") is not None:
+            sel[field] = (A.norm(resolve(rid, A.kw(v, "start"))).replace(f"'{field}'", "'F'"), A.norm(resolve(rid, A.kw(v, "stop"))).replace(f"'{field}'", "'F'"))
+    ok = len(sel) == 2 and sel["indices"] == sel["seq_nums"] and sel["indices"][0].endswith("[0]['F']['start']") and sel["indices"][1].endswith("[-1]['F']['stop']")
     ctx.ob("C36.D1-range-selectors-agree", cname(f, None, "indices and seq_nums both = [first.start, last.stop)"), ok,
            "" if ok else f"selectors are {sel}: the combined index range and seq_num range no longer describe the same documents", nontrivial=True, where=where(f, rets[0]))
-    ok = all(A.norm(A.kw(call, k)) in (f"docs[-1]['{k}']", f"docs[0]['{k}']") for k in ("stream_resource", "descriptor", "uid"))
-    ctx.ob("C36.D1-range-selectors-agree", cname(f, None, "identity fields taken from the input documents"), ok, "" if ok else "identity fields changed", where=where(f, rets[0]))
-    sorts = [s for s in f.node.body if isinstance(s, ast.Assign) and A.norm(s.targets[0]) == "docs" and "sorted(docs, key=lambda doc: doc['indices']['start'])" in A.norm(s.value)]
-    ok = len(sorts) == 1 and q.dominated(g, rets[0], lambda n: n.stmt is sorts[0]) is None
-    ctx.ob("C36.D1-range-selectors-agree", cname(f, None, "documents sorted by start index before first / last are taken"), ok, "" if ok else "result built from unsorted input", nontrivial=True, where=where(f, f.node))
+    idf = {k: A.norm(resolve(rid, A.kw(call, k))) if rid is not None and A.kw(call, k) is not None else None for k in ("stream_resource", "descriptor", "uid")}
+    ok = all(v in (f"SORTED[-1]['{k}']", f"SORTED[0]['{k}']", f"INPUT[-1]['{k}']", f"INPUT[0]['{k}']") for k, v in idf.items())
+    ctx.ob("C36.D1-range-selectors-agree", cname(f, None, "identity fields taken from the input documents"), ok, "" if ok else f"identity fields changed: {idf}", where=where(f, rets[0]))
+    ok = len(sel) == 2 and all(x.startswith("SORTED[") for v in sel.values() for x in v)
+    ctx.ob("C36.D1-range-selectors-agree", cname(f, None, "documents sorted by start index before first / last are taken"), ok,
+           "" if ok else "result built from unsorted input", nontrivial=True, where=where(f, f.node))
     # D2 guards dominate the result
+    def uniq_test(t, field):
+        """len({d[field] for d in <input or sorted>}) > 1   (also != 1)"""
+        if not (isinstance(t, ast.Compare) and len(t.ops) == 1 and isinstance(t.ops[0], (ast.Gt, ast.NotEq)) and A.norm(t.comparators[0]) == "1"):
+            return False
+        c = t.left
+        if not (isinstance(c, ast.Call) and A.call_name(c) == "len" and len(c.args) == 1):
+            return False
+        sc = c.args[0]
+        if isinstance(sc, ast.Call) and A.call_name(sc) == "set" and len(sc.args) == 1:
+            sc = sc.args[0]
+        if not (isinstance(sc, (ast.SetComp, ast.GeneratorExp, ast.ListComp)) and len(sc.generators) == 1 and not sc.generators[0].ifs and isinstance(sc.generators[0].target, ast.Name)):
+            return False
+        v = sc.generators[0].target.id
+        return A.norm(sc.elt) == f"{v}['{field}']"
     for field in ("descriptor", "stream_resource"):
-        gs = [s for s in f.node.body if isinstance(s, ast.If) and f"doc['{field}'] for doc in docs" in A.norm(s.test) and "> 1" in A.norm(s.test)
-              and any(isinstance(x, ast.Raise) and "ValueError" in A.norm(x) for x in s.body)]
+        gs = []
+        for s_ in A.walk_stmts(f.node.body):
+            if isinstance(s_, ast.If) and any(isinstance(x, ast.Raise) and "ValueError" in A.norm(x) for x in s_.body) and g.nodes_of(s_):
+                t = q.expand_at(g, g.nodes_of(s_)[0], s_.test, keep=tuple(params))
+                if uniq_test(t, field):
+                    src = None
+                    for n_ in ast.walk(t):
+                        if isinstance(n_, ast.comprehension):
+                            src = A.norm(resolve(g.nodes_of(s_)[0], n_.iter))
+                    if src in ("INPUT", "SORTED"):
+                        gs.append(s_)
         ok = bool(gs) and q.dominated(g, rets[0], lambda n: n.kind == "test" and n.stmt is gs[0]) is None
         ctx.ob("C36.D2-guards-dominate-result", cname(f, None, f"documents of different {field}s are rejected"), ok, "" if ok else f"mixed {field}s are concatenated", nontrivial=True, where=where(f, f.node))
-    loops = [s for s in f.node.body if isinstance(s, ast.For) and A.norm(s.iter) == "zip(docs[:-1], docs[1:])"]
     ok = False
-    if loops:
-        t = [x for x in loops[0].body if isinstance(x, ast.If)]
-        ok = bool(t) and A.norm(t[0].test) == "d1['indices']['stop'] != d2['indices']['start']" and any(isinstance(x, ast.Raise) and "ValueError" in A.norm(x) for x in t[0].body)
-        ok = ok and q.dominated(g, rets[0], lambda n: n.kind == "for" and n.stmt is loops[0]) is None
-        ok = ok and sorts and f.node.body.index(sorts[0]) < f.node.body.index(loops[0])
+    for lp in [s_ for s_ in A.walk_stmts(f.node.body) if isinstance(s_, ast.For) and isinstance(s_.iter, ast.Call) and g.nodes_of(s_)]:
+        it = lp.iter
+        nid = g.nodes_of(lp)[0]
+        pair_src = None
+        if A.call_name(it) == "zip" and len(it.args) == 2:
+            a0, a1 = A.norm(resolve(nid, it.args[0])), A.norm(resolve(nid, it.args[1]))
+            if (a0, a1) in (("SORTED[:-1]", "SORTED[1:]"), ("SORTED", "SORTED[1:]")):
+                pair_src = "SORTED"
+        elif A.call_name(it) in ("pairwise", "itertools.pairwise") and len(it.args) == 1 and A.norm(resolve(nid, it.args[0])) == "SORTED":
+            pair_src = "SORTED"
+        if pair_src is None or not (isinstance(lp.target, ast.Tuple) and len(lp.target.elts) == 2 and all(isinstance(e_, ast.Name) for e_ in lp.target.elts)):
+            continue
+        d1, d2 = (e_.id for e_ in lp.target.elts)
+        t = [x for x in lp.body if isinstance(x, ast.If)]
+        good = bool(t) and A.norm(t[0].test) in (f"{d1}['indices']['stop'] != {d2}['indices']['start']", f"{d2}['indices']['start'] != {d1}['indices']['stop']") \
+            and any(isinstance(x, ast.Raise) and "ValueError" in A.norm(x) for x in t[0].body)
+        if good and q.dominated(g, rets[0], lambda n, lp=lp: n.kind == "for" and n.stmt is lp) is None:
+            ok = True
     ctx.ob("C36.D2-guards-dominate-result", cname(f, None, "every consecutive pair (after sorting) must be contiguous"), ok, "" if ok else "gaps / overlaps are accepted", nontrivial=True, where=where(f, f.node))
     single = [s for s in f.node.body if isinstance(s, ast.If) and A.norm(s.test) == "len(docs) == 1" and isinstance(s.body[0], ast.Return) and A.norm(s.body[0].value) == "docs[0]"]
     ctx.ob("C36.D2-guards-dominate-result", cname(f, None, "a single document is returned unchanged"), bool(single), "" if single else "single-document case changed", where=where(f, f.node))
